@@ -15,6 +15,7 @@ import Driver.RX
 import Driver.E2E
 import Driver.MD
 import Driver.FX
+import Driver.FA
 /-!
 Line-protocol driver: one operation per input line, one observation per output line:
 `<model observation>\t<spec observation>`.  First token selects the component.
@@ -39,6 +40,7 @@ structure All where
   e2e : E2E.St := {}
   md : MD.St := {}
   fx : FX.St := {}
+  fa : FA.St := {}
 
 def stepAll (s : All) (line : String) : All × String :=
   match (line.trimAscii.toString.splitOn " ").filter (· ≠ "") with
@@ -90,6 +92,9 @@ def stepAll (s : All) (line : String) : All × String :=
   | "fx" :: args =>
       let (c, a, b) := FX.step s.fx args
       ({ s with fx := c }, a ++ "\t" ++ b)
+  | "fa" :: args =>
+      let (c, a, b) := FA.step s.fa args
+      ({ s with fa := c }, a ++ "\t" ++ b)
   | "md" :: args =>
       let (c, a, b) := MD.step s.md args
       ({ s with md := c }, a ++ "\t" ++ b)
